@@ -1,5 +1,7 @@
 import HdVerif.Proofs.SegReadOrder
 import HdVerif.Proofs.SegMeta
+import HdVerif.Proofs.Effects
+import HdVerif.Generated.T8h
 /-! # C02  Segment selection, ordering, combining and relabelling are exact
 
 Property theorems only.  The statements are about `SegRead.readCore` (`Segmentation._get_pixels_by_seg_frame`) and
@@ -14,7 +16,7 @@ the object has none) that equal `s`; for a BINARY / FRACTIONAL object it is `seg
 frame stored for (`k`, `s`), all zero when there is none (`covers st k s i`: pixel `i` of it is set).  That the stored
 frames represent the mask given to the constructor is property C01. -/
 namespace HdVerif.C02
-open HdVerif HdVerif.Gen HdVerif.SegRead HdVerif.SegMeta HdVerif.SegReadLemmas HdVerif.SegMetaLemmas
+open HdVerif HdVerif.Gen HdVerif.SegRead HdVerif.SegMeta HdVerif.SegReadLemmas HdVerif.SegMetaLemmas HdVerif.Effects
 
 /-! ## Output dtype capacity (tie T: T8, T8b) -/
 
@@ -415,6 +417,54 @@ theorem absent_plane_reads_empty (st : Stored) (k : Nat) (h : ∀ f ∈ st.frame
   simp only [List.getLast?_nil, List.map_replicate]
   congr 1
   exact outVal_not_mem segs relabel 0 h0
+
+/-! ## Reads are pure (tie T: T8h)
+
+Location 0 of the store model (`Model/Effects.lean`) is the object's stored pixel data (`PixelData` and the decoded
+pixel array pydicom keeps on the object).  The three tables are the assignments of
+`Segmentation._get_pixels_by_seg_frame`, `_Image._get_pixels_by_frame` and `_CombinedPixelTransform.__call__`,
+regenerated from the source: for each, whether it rebinds a name (`x = e`) or writes in place (`x op= e`, `x[i] = e`,
+`x.a = e`), and what `e` may share memory with. -/
+
+/-- names are numbered (`Gen.effectNames`), 0 is `self`; the analysis accepts the current read paths: the may-alias set of the object's cells is closed under every
+statement and no in-place statement writes through a name in it -/
+theorem read_paths_pure_by_analysis :
+    pureProg [0] (segReadEffects ++ frameLoopEffects ++ frameTransformEffects) = true := by decide +kernel
+
+/-- `_get_pixels_by_frame` returns a new array (what T8h assumes about that call) -/
+theorem frame_loop_returns_new_array :
+    (frameLoopReturns.all fun n =>
+      !(mayAlias [0] (segReadEffects ++ frameLoopEffects ++ frameTransformEffects)).contains n) = true := by
+  decide +kernel
+
+/-- **Reads do not modify the object**: whatever statements of the three read functions run, in whatever order and
+however often (any branch, any number of loop iterations, calls interleaved), with whatever values, the object's
+stored pixel cells are the same afterwards — so a later read sees what an earlier one saw. -/
+theorem reads_do_not_modify_the_object (σ σ' : St) (hinit : ∀ x, σ.env x = some 0 → x = 0)
+    (h : Exec (segReadEffects ++ frameLoopEffects ++ frameTransformEffects) σ σ') : σ'.store 0 = σ.store 0 :=
+  pureProg_sound [0] _ read_paths_pure_by_analysis σ σ' (fun x hx => by simp [hinit x hx]) h
+
+/-! Non-vacuity: the semantics does see in-place writes.  A three-statement program — take a stored frame, slice it,
+floor-divide the slice in place — is rejected by the analysis, and it has an execution that changes location 0. -/
+
+def exInPlace : List Stmt :=
+  [⟨1, false, .stored⟩, ⟨1, false, .view [1]⟩, ⟨1, true, .fresh⟩]
+
+example : pureProg [0] exInPlace = false := by decide
+
+example : ∃ σ σ' : St, (∀ x, σ.env x = some 0 → x = 0) ∧ Exec exInPlace σ σ' ∧ σ'.store 0 ≠ σ.store 0 := by
+  let σ : St := { env := fun x => if x = 0 then some 0 else none, store := fun _ => 255 }
+  refine ⟨σ, (σ.bind 1 (some 0)).write 0 1, ?_, ?_, ?_⟩
+  · intro x hx
+    simp only [σ] at hx
+    by_cases h : x = 0
+    · exact h
+    · simp [h] at hx
+  · apply Exec.step (σ₂ := σ.bind 1 (some 0))
+    · apply Exec.step (Exec.refl σ)
+      exact Step.bindStored ⟨1, false, .stored⟩ (by simp [exInPlace]) rfl rfl σ
+    · exact Step.writeInPlace ⟨1, true, .fresh⟩ (by simp [exInPlace]) rfl 0 1 _ (by simp [St.bind])
+  · simp [St.write, σ]
 
 /-! ## Metadata search -/
 
